@@ -1,5 +1,6 @@
 mod cli;
 mod genp;
+mod gort;
 mod harness;
 mod ops;
 mod prng;
@@ -138,6 +139,64 @@ fn main() {
             println!("VERIF_SEED={}", opts.seed);
             warm_builtins(prng::mix(&[opts.seed, prng::purpose("warm")]));
             props::c13::run(&opts)
+        }
+        "gort-corpus" => {
+            // validate the stub runtime and the reference model against the repository's
+            // recorded outputs (main.gom.out)
+            let sb = world::Sandbox::new("gortcorpus").unwrap();
+            let mut stats = [0usize; 6];
+            for c in ops::corpus() {
+                let Some(expected) = c.expected_out.clone() else { continue };
+                sb.materialise(&c.files);
+                let (sum, compiled, _) = ops::run_main(&sb, &world::ProcSpec::default(), false);
+                let Some(compiled) = compiled else { println!("{}: not compiled ({})", c.name, sum.class); continue };
+                let compiled = *compiled;
+                let gp = std::sync::Arc::new(gort::goi::ProgData::new(compiled.go));
+                let out = gort::run_go(&gp, gort::co::Strategy::Random, 1, vec![], 2_000_000);
+                stats[0] += 1;
+                match &out.stop {
+                    gort::co::Stop::MainReturned if out.stdout == expected => stats[1] += 1,
+                    gort::co::Stop::Unsupported(w) => { stats[2] += 1; println!("{}: go unsupported: {w}", c.name); }
+                    other => { stats[3] += 1; println!("{}: GO MISMATCH stop={:?}\n--- got\n{}--- expected\n{}", c.name, other, out.stdout, expected); }
+                }
+                let rp = std::sync::Arc::new(gort::refi::RefProg::new(compiled.tast, compiled.genv));
+                let mut ctrl = gort::co::Seeded::new(gort::co::Strategy::Random, 1, vec![]);
+                let rout = gort::run_ref(&rp, &mut ctrl, 2_000_000);
+                match &rout.stop {
+                    gort::co::Stop::MainReturned if rout.stdout == expected => stats[4] += 1,
+                    gort::co::Stop::Unsupported(w) => println!("{}: ref unsupported: {w}", c.name),
+                    other => { stats[5] += 1; println!("{}: REF MISMATCH stop={:?}\n--- got\n{}--- expected\n{}", c.name, other, rout.stdout, expected); }
+                }
+            }
+            println!("programs with recorded output: {}; go-interp agrees: {}, unsupported: {}, MISMATCH: {}; reference agrees: {}, MISMATCH: {}", stats[0], stats[1], stats[2], stats[3], stats[4], stats[5]);
+            0
+        }
+        "gen-stats" => {
+            let n: usize = args.get(2).and_then(|x| x.parse().ok()).unwrap_or(200);
+            let sb = world::Sandbox::new("genstats").unwrap();
+            let mut ok = 0;
+            let mut reasons: std::collections::BTreeMap<String, usize> = Default::default();
+            for i in 0..n {
+                let mut p = prng::Prng::derive(opts.seed, i as u64, "genstats");
+                let cfg = genp::project::GenCfg::swarm(&mut p);
+                let proj = genp::project::generate(&mut p, &cfg);
+                let files = proj.render();
+                sb.materialise(&files);
+                let (sum, _c, _) = ops::run_main(&sb, &world::ProcSpec::default(), false);
+                if sum.class == "compiled" {
+                    ok += 1;
+                } else {
+                    let key = format!("{}:{}:{}", sum.class, sum.kind, sum.diagnostics.first().cloned().unwrap_or(sum.message.clone()));
+                    if !reasons.contains_key(&key) && args.get(3).is_some() {
+                        for (k, v) in &files { println!("--- {k}\n{}", String::from_utf8_lossy(v)); }
+                        println!("=> {key}");
+                    }
+                    *reasons.entry(key).or_insert(0) += 1;
+                }
+            }
+            println!("{ok}/{n} compile");
+            for (k, v) in reasons { println!("{v:5} {k}"); }
+            0
         }
         "c13-child" => {
             let warm: u64 = args[2].parse().unwrap();
